@@ -71,7 +71,8 @@ def scan_nearest(times, q, dev, got=None):
     preferred = ds.index(best) if best <= fd else -1
     ok = set()
     if best <= fd + tol:
-        ok |= {i for i, d in enumerate(ds) if d - best <= tol and d <= fd + tol and (i == 0 or times[i - 1] != times[i])}
+        # (an exact tie - equal times, or two rows exactly equidistant from the query - goes to the earlier row, always)
+        ok |= {i for i, d in enumerate(ds) if d - best <= tol and d <= fd + tol and d not in ds[:i]}
     if best > fd - tol:
         ok.add(-1)
     return got if got in ok else preferred
